@@ -129,6 +129,13 @@ func run(repo, out string, rep *report) error {
 	}
 
 	// find the Env struct's mutex field
+	notMap := map[string]bool{}
+	defer func() {
+		for k := range notMap {
+			rep.Degraded = append(rep.Degraded, "field `"+k+"` is not a plain map: lockset probes NOT attached to it")
+		}
+	}()
+	skipTables = notMap
 	for _, fi := range files {
 		if fi.pkg != "env" {
 			continue
@@ -144,6 +151,13 @@ func run(repo, out string, rep *report) error {
 				for _, nm := range fld.Names {
 					if nm.Name == "values" {
 						hasValues = true
+					}
+					if nm.Name == "values" || nm.Name == "types" {
+						if _, isMap := fld.Type.(*ast.MapType); !isMap {
+							// the table is no longer a plain map guarded by the mutex (sync.Map, atomic copy-on-write...):
+							// "every access under the scope's lock" is not the design any more, so no probe for it
+							notMap[nm.Name] = true
+						}
 					}
 				}
 				if isSyncMutex(fld.Type) && mu == "" && len(fld.Names) > 0 {
@@ -175,6 +189,8 @@ func run(repo, out string, rep *report) error {
 	sort.Strings(rep.AccessSites)
 	return nil
 }
+
+var skipTables map[string]bool
 
 func isSyncMutex(e ast.Expr) bool {
 	se, ok := e.(*ast.SelectorExpr)
@@ -402,7 +418,7 @@ func (rw *rewriter) walkList(list []ast.Stmt) {
 // tableSel reports whether e is X.values / X.types and returns X's text.
 func (rw *rewriter) tableSel(e ast.Expr) (string, bool, bool) {
 	se, ok := e.(*ast.SelectorExpr)
-	if !ok || (se.Sel.Name != "values" && se.Sel.Name != "types") {
+	if !ok || (se.Sel.Name != "values" && se.Sel.Name != "types") || skipTables[se.Sel.Name] {
 		return "", false, false
 	}
 	x := rw.text(se.X)
